@@ -339,6 +339,11 @@ func rangeMain(args []string) {
 		case 1:
 			c.IDs = []string{"zz", "b"}
 		}
+		if rng.Intn(12) == 0 {
+			// the empty id is an id: a list that holds it is a list (it selects the resource without id, if any)
+			c.IDs = [][]string{{""}, {"a", ""}, {"", "zz"}}[rng.Intn(3)]
+			stt.class("blank-in-id-list")
+		}
 		if rng.Intn(3) == 0 {
 			op := ops[rng.Intn(len(ops))]
 			if classOf(c.KX) == "bool" {
